@@ -14,4 +14,31 @@ CHECKS = {
              "opts": {"thorough": {"l2_runs": 500}}},
         ],
     },
+
+    "C11": {"pkg": "conc", "bin": "c11", "level": "exploration",
+      "technique": "runtime monitoring: differential oracle (native u64 %) over stratified (divisor, hash) pairs through the verif_hooks wrappers of the real StrengthReducedU64 (production partition_indices loop + quotient/remainder), public BatchPartitioner cross-check, overflow-check panics as violations, Miri stage",
+      "level_text": "No counterexample in 2.9e7 (quick) / 4.7e9 (thorough) stratified pairs: every divisor < 2^16 (thorough: < 2^20) through the production routing loop, 2^k, 2^k+-1, 2^k+-small, primes near 2^32/2^48/2^63/2^64, u64::MAX-0..64 and random divisors of every bit length, each with 0,1,d+-1, k*d-1/k*d/k*d+1 for k of every bit length up to floor((2^64-1)/d), u64::MAX-0..8 and random values; both carry outcomes and all 64 divisor/quotient bit lengths are coverage obligations. BatchPartitioner hash partitioning is cross-checked against create_hashes % n for n = 1..4096.",
+      "level_note": "Sampling, not the proof the property asks for: 2^128 pairs exist. The strata are aimed at the failure modes of reciprocal division (floor vs ceil reciprocal, dropped carry, truncated high half, wrong mask); an error confined to pairs outside those strata and rarer than ~1e-9 among random pairs would be missed. The oracle trusts native `%`.",
+      "stages": [{"kind": "miri", "tiers": ["thorough"], "seeds": {"thorough": 2}}]},
+    "C14": {"pkg": "conc", "bin": "c14", "level": "exploration",
+      "technique": "runtime monitoring: list-comprehension oracle over the real JoinHashMapU32/U64 (update_from_iter with the hash-join reverse-batch idiom, get_matched_indices_with_limit_offset at every page size resumed from the returned offset, contain_hashes, get_matched_indices with deleted_offset), exhaustive small build/probe alphabets + seeded long-chain/unique-map cases, Miri stage",
+      "level_text": "All build sequences of length <=4 over {h1,h2,NULL} x probe sequences of length <=3 over {h1,h2,miss,NULL} (single and split batches) are enumerated; 20k (quick) / 200k (thorough) seeded cases add chains up to 40 rows, unique-only maps (fast path), NULL-key build/probe rows and multi-batch builds. For each case every page size 1..|result|+1 is replayed and its concatenation must equal the complete lookup, which must equal [(p,b) | p non-NULL, b inserted, B[b]=P[p]] per probe row; resume points at chain ends, mid-chain and in the fast path are coverage obligations.",
+      "level_note": "Within-probe-row order of build indices is observed (always reverse insertion order) but not asserted. PruningJoinHashMap is not public, so deleted_offset is exercised by emulating its post-prune state (stale chain tails) on the public maps. Build sizes <= 40 rows; the u32/u64 index overflow boundary is not reachable at these sizes.",
+      "stages": [{"kind": "miri", "tiers": ["thorough"], "seeds": {"thorough": 1}}]},
+    "C17": {"pkg": "conc", "bin": "c17", "level": "exploration",
+      "technique": "runtime monitoring: model-based sequential oracle after every operation, quiescent-point conservation checks at barriers, call/return history bound for limit enforcement, Miri + ThreadSanitizer stages",
+      "level_text": "Random operation histories (<= 60 ops) on the real Unbounded/Greedy/FairSpill pools under 8 nestings of TrackConsumersPool and PeakRecordingPool, compared with a sequential model of each pool's documented admission rule after every operation; 2-3 thread runs with barriers as quiescent points and an offline limit bound over the call/return log of every growth and release. Miri (8 schedules) and ThreadSanitizer re-run the concurrent workload.",
+      "level_note": "Bounded exploration: <= 3 consumers, <= 6 reservations, 2-3 threads; concurrent limit enforcement is checked by a conservative bound valid under every linearization, not by enumerating interleavings. FairSpillPool's share is taken per reservation as its try_grow implements it.",
+      "stages": [{"kind": "miri", "tiers": ["thorough"], "seeds": {"thorough": 8}},
+                 {"kind": "tsan", "tiers": ["thorough"], "repeats": {"thorough": 5}}]},
+    "C40": {"pkg": "conc", "bin": "c40", "level": "exploration",
+      "technique": "runtime monitoring: model-based sequential oracle (LRU + TTL + byte budget) with per-operation accounting checks, protocol-level validity oracle on the concrete caches, Miri stage",
+      "level_text": "Component stage: random histories (<= 60 ops, <= 6 keys, sizes 0 .. above the limit, mock clock) on DefaultCache and on the file-statistics / list-files / file-metadata caches obtained from CacheManager, compared after every operation with a sequential LRU + TTL + byte-budget model (contents, len, memory_used == sum of entries <= limit, expiry stamps); the concrete caches are driven with the documented get -> is_valid_for -> put protocol over simulated files whose size, mtime, e_tag and existence change.",
+      "level_note": "Covers the cache components; the exact TTL boundary instant and the return value of put/remove for already-expired entries are left open by the docs and are not asserted.",
+      "stages": [{"kind": "miri", "tiers": ["thorough"], "seeds": {"thorough": 2}}]},
+    "C52": {"pkg": "dfv", "bin": "c52", "level": "exploration",
+      "technique": "runtime monitoring: identity round-trip oracle on TableReference::to_quoted_string/parse_str and Column::quoted_flat_name/from_qualified_name, exhaustive over a 6-character hostile alphabet for short identifiers x 1..3 parts, seeded random longer identifiers (keywords, quotes, control/unicode), Miri stage",
+      "level_text": "Exhaustive over identifiers of length 1..3 from {a, A, ., \", space, e-acute}: all 1- and 2-part references and Bare-qualified columns, 3-part references complete over length <=2 (quick, plus 120k sampled length-3 triples) or length <=3 (thorough, 17M), 2/3-part-relation columns over shorter identifiers; plus 60k/3M random identifiers up to 24 characters. Held = every non-empty reference/column re-parsed to itself. The native stage runs in the dfv crate (datafusion-common with its `sql` feature = the production sqlparser-based splitter); the Miri stage runs the same source in the slim conc crate (fallback splitter).",
+      "level_note": "Empty identifiers are executed but not asserted (the statement quantifies over identifiers containing characters; the code makes no promise for empty ones). parse_identifiers_normalized is pub(crate) and reached only through its callers.",
+      "stages": [{"kind": "miri", "pkg": "conc", "bin": "c52", "tiers": ["thorough"], "seeds": {"thorough": 1}}]},
 }
